@@ -235,6 +235,9 @@ Fixpoint py_eq (a b : pv) {struct a} : option bool :=
         end
     | _, _ => Some false
     end in
+  match as_int a, as_int b with
+  | Some x, Some y => Some (x =? y)
+  | _, _ =>
   match as_num a, as_num b with
   | Some (x, ex, _), Some (y, ey, _) => let '(p, q) := dy_align x ex y ey in Some (p =? q)
   | _, _ =>
@@ -252,6 +255,7 @@ Fixpoint py_eq (a b : pv) {struct a} : option bool :=
     | PDict _, _ | _, PDict _ => None
     | _, _ => Some false
     end
+  end
   end.
 
 (** [is]: defined for the singletons, enum members, classes and CPython's
@@ -385,9 +389,13 @@ Definition py_cmp (op : cmpop) (a b : pv) : res bool :=
               end;
       Ok (match op with CIn => r | _ => negb r end)
   | _ =>
+      match as_int a, as_int b with
+      | Some x, Some y => Ok (cmp_int op x y)
+      | _, _ =>
       match as_num a, as_num b with
       | Some (x, ex, _), Some (y, ey, _) => let '(p, q) := dy_align x ex y ey in Ok (cmp_int op p q)
       | _, _ => Unsupported "ordering of non-numbers"
+      end
       end
   end.
 
